@@ -61,7 +61,7 @@ Lemma packet_decode_total d proto : total (packet_decode d proto).
 Proof.
   unfold packet_decode.
   assert (Hl : forall l2 k dd, total (x <- (if k =? 4 then decode_ipv4 dd else decode_ipv6 dd) ;; let '(l3, pr, rest) := x in l4 <- decode_l4 pr rest ;; Ok (JObj [("L2"%string, l2); ("L3"%string, l3); ("L4"%string, l4)]))).
-  { intros l2 k dd. destruct (k =? 4); unfold decode_ipv4, decode_ipv6; destruct (len dd <? _); cbn [bind total]; auto;
+  { intros l2 k dd. destruct (k =? 4); unfold decode_ipv4, decode_ipv6; repeat (destruct (len dd <? _); cbn [bind total]; auto);
       unfold decode_l4; repeat match goal with |- context [if ?c then _ else _] => destruct c end; cbn; auto. }
   destruct (proto =? 1).
   - unfold decode_ethernet. destruct (len d <? 14); [exact I|]. destruct (ieee802 d) as [[s1 d1] et1].
